@@ -320,6 +320,28 @@ def subtree_portfolio(args):
             'sample': {'seam': 'portfolio', 'subtree_prefix': [list(e) for e in prefix], 'states': n}}
 
 
+def periodic_position(item):
+    """every cycle of <= 2 events repeated many times on ONE Position object (count-dependent behaviour)"""
+    cyc, repeats = [tuple(e) for e in item['cycle']], item['repeats']
+    pos, ref = None, Ref()
+    viols, i, done = [], 0, 0
+    for r in repeats:
+        while done < r:
+            for ev in cyc:
+                pos, ref, f = apply_position(pos, ref, ev, i)
+                i += 1
+                if f:
+                    viols += [dict(x, case={'seam': 'periodic', 'cycle': item['cycle'], 'repeat': r}) for x in f]
+            done += 1
+        if pos is not None and not viols:
+            fails = check_view(pos_view(pos), ref, {'cycle': item['cycle'], 'repeat': r}, 'Position')
+            viols += [dict(x, case={'seam': 'periodic', 'cycle': item['cycle'], 'repeat': r}) for x in fails]
+        if viols:
+            break
+    return {'viols': viols[:4], 'execs': i, 'evals': len(repeats), 'nontrivial': True, 'outcome': None,
+            'counters': {'periodic_position_events': i}}
+
+
 def run(tier, res, is_known):
     dpos = 4 if tier == 'quick' else 4
     dpf = 4 if tier == 'quick' else 5
@@ -352,6 +374,12 @@ def run(tier, res, is_known):
     revs = alphabet('rebate')
     ritems = [('rebate', (), 0)] + [('rebate', (pre,), 3) for pre in revs]
     product(subtree_position, ritems, res, is_known, label='position tree, negative commissions', chunk=1, sample_every=7)
+    if any(not is_known(v) for v in res.violations):
+        return
+    pitems = [{'cycle': [list(e) for e in cyc], 'repeats': [60, 400] if tier == 'quick' else [60, 400, 2000]}
+              for n in (1, 2) for cyc in itertools.product(evs, repeat=n) if any(e[0] == 'fill' for e in cyc)]
+    product(periodic_position, pitems, res, is_known, label='position, long periodic histories', chunk=16,
+            sample_every=10 ** 9)
     if any(not is_known(v) for v in res.violations):
         return
     lpevs = pf_alphabet('large')
@@ -393,6 +421,8 @@ def run(tier, res, is_known):
 
 def replay(case):
     hist = [tuple(e) for e in case['history']]
+    if case['seam'] == 'periodic':
+        return periodic_position({'cycle': case['cycle'], 'repeats': [case['repeat']]})['viols']
     # every prefix state is read exactly as the exploration read it (each prefix was a checked state)
     if case['seam'] == 'position':
         pos, ref = None, Ref()
@@ -414,6 +444,8 @@ def replay(case):
 
 
 def minimise(case, clause):
+    if case.get('seam') == 'periodic':
+        return case
     hist = [list(e) for e in case['history']]
     i = 0
     while i < len(hist):
